@@ -1,9 +1,19 @@
 import Driver.Proto
 import PqModel.Spec.FileCheck
 
-/-! `file.check <path> <maxRows>`: run the spec-side structural reader on a file on disk. -/
+/-! `file.check <path> <maxRows>`: run the spec-side structural and value-level reader on a file
+    on disk. `file.dump <path>`: the Dremel streams the spec reader decodes from the file, one
+    column after the other (` ; ` between columns, ` ` between entries, entry = `hex/rep/def` or
+    `n/rep/def`, `-` = empty byte string, `?` = column with a codec other than none/snappy). -/
 namespace Driver.Ops.C02
 open PqModel.Spec
+
+def entryText (t : Triple) : String :=
+  (match t.val with | none => "n" | some v => Driver.toHex v) ++ "/" ++ toString t.rep ++ "/" ++ toString t.dl
+
+def columnText : Option (List Triple) → String
+  | none => "?"
+  | some ts => " ".intercalate (ts.map entryText)
 
 def handleIO (toks : List String) : IO (Option String) := do
   match toks with
@@ -17,6 +27,11 @@ def handleIO (toks : List String) : IO (Option String) := do
       | .ok r =>
         if r.problems.isEmpty then return some s!"ok {r.summary}"
         else return some s!"bad {r.summary} | {" ; ".intercalate (r.problems.reverse.map (·.replace "\n" " "))}"
+  | ["file.dump", path] =>
+    let d ← try IO.FS.readBinFile path catch _ => return some "err unreadable"
+    match dumpFile d with
+    | .error e => return some s!"err {e.replace "\n" " "}"
+    | .ok cols => return some s!"ok {" ; ".intercalate (cols.map columnText)}"
   | _ => return none
 
 end Driver.Ops.C02
